@@ -208,6 +208,64 @@ class Typer:
                 break
         return self
 
+    def infer_private_params(self):
+        """Parameters of package-private functions (module-level `_name`, name-mangled
+        methods, nested functions) that the naming convention leaves unknown get the
+        join of what the package's own call sites pass.  Returns True if anything
+        was learnt (the caller then re-runs the analysis)."""
+        seen = {}
+        for f, ft in list(self.results.items()):
+            for node in ast.walk(f.node):
+                if not isinstance(node, ast.Call):
+                    continue
+                res = ft.calls.get(id(node))
+                if res is None or res.kind != "func" or not isinstance(res.target, Func):
+                    continue
+                t = res.target
+                private = (t.cls is None and t.srcname.startswith("_") and not t.srcname.startswith("__")) or \
+                    (t.cls is not None and t.srcname.startswith("__") and not t.srcname.endswith("__")) or t.outer is not None
+                if not private:
+                    continue
+                ps = list(t.posparams)
+                if t.selfname is not None:
+                    ps = ps[1:]
+                binds = []
+                i = 0
+                for a in node.args:
+                    if isinstance(a, ast.Starred):
+                        break
+                    if i < len(ps):
+                        binds.append((ps[i], a))
+                    i += 1
+                for k in node.keywords:
+                    if k.arg in ps:
+                        binds.append((k.arg, k.value))
+                for prm, a in binds:
+                    v = ft.type_of(a)
+                    key = (t.where, prm)
+                    seen[key] = join(seen.get(key), v if v is not None else TOP) if key in seen else (v if v is not None else TOP)
+        learnt = False
+        for (where, prm), v in seen.items():
+            if v is None or is_top(v) or not v:
+                continue
+            if (where, prm) in self.param_override:
+                continue
+            func = next((f for f in self.p.all_funcs if f.where == where), None)
+            if func is None:
+                continue
+            cur = self._seed_by_name(func, prm)
+            if is_top(cur):
+                self.param_override[(where, prm)] = v
+                learnt = True
+        return learnt
+
+    def run_interprocedural(self, rounds=6):
+        self.run(rounds)
+        if self.infer_private_params():
+            self.summ, self.results, self.field_cache = {}, {}, {}
+            self.run(rounds)
+        return self
+
     def cfg_of(self, func):
         if func not in self.cfgs:
             self.cfgs[func] = CFG(func.node, func.body, name=func.where)
